@@ -910,7 +910,9 @@ def completeness_scan():
             continue
         if kind == "lru" and scope == "module":
             fn = getattr(m, name, None)
-            ok = fn is not None and statehash._is_lru(fn) and ("lru:%s.%s" % (mod, name)) in comps
+            # covered = this very cache object is a component of the fingerprint (under whatever module name: a
+            # reorganisation may define it in one module and re-export it from another)
+            ok = fn is not None and statehash._is_lru(fn) and id(fn) in s.owner
             if ok:
                 try:
                     statehash.lru_items(fn)
@@ -942,7 +944,7 @@ def completeness_scan():
             # the function no longer carries an lru_cache: whatever holds its results now (a module-level dict, an
             # attribute) is covered by the generic walk over the globals of every loaded annet module - not a gap
             out.setdefault("notes", []).append("%s.%s is not an lru_cache in this tree; its state is covered as module globals" % (mod, name))
-        elif comp not in comps:
+        elif id(fn) not in s.owner:
             out["missing"].append({"module": mod, "name": name, "kind": "required-lru", "scope": "module"})
         elif fn.cache_info().currsize == 0 and name != "compile_ref_acl_text":
             out["missing"].append({"module": mod, "name": name, "kind": "required-lru-never-filled", "scope": "module"})
@@ -986,9 +988,14 @@ def report_scan(scan, unit, ctx):
         ctx.extra["state component changed by the jobs: " + k] += 1
     for n in scan.get("notes", []):
         ctx.notes.append(n)
+    # a cache or container the static scan sees and the fingerprint does not reach says something about the HARNESS (its closure
+    # argument is weaker than claimed), nothing about the property: results are compared edge by edge whatever the
+    # fingerprint covers.  It is noted and the run is marked not exhaustive - never reported as a finding.
     for f in scan["missing"]:
-        ctx.violation({"kind": "fingerprint-incomplete", "what": f["kind"], "module": f["module"], "name": f["name"]},
-                      _case(unit["h"], None, scan=True), json.dumps(f))
+        ctx.capped = True
+        ctx.extra["scan: state the fingerprint does not reach (%s)" % f["kind"]] += 1
+        if len(ctx.notes) < 6:
+            ctx.notes.append("fingerprint does not reach %s %s.%s" % (f["kind"], f["module"], f["name"]))
 
 
 # ---------------------------------------------------------------------------------------------------
@@ -1029,14 +1036,14 @@ def finish(merged, tier):
             groups += 1
         if len(nxt) > 1:
             (fa, ha), (fb, hb) = sorted(nxt.items())[:2]
-            sig = {"kind": "fingerprint-not-congruent", "job": _JOB[j]["jk"]}
-            k = core.canon(sig)
-            m = merged["viol"].setdefault(k, {"sig": sig, "count": 0, "cases": []})
-            m["count"] += 1
-            if len(m["cases"]) < 3:
-                m["cases"].append({"case": _case(ha, j, other_history=hb),
-                                   "detail": "histories %s and %s reach the same fingerprint %s, but %s after them gives "
-                                             "fingerprints %s / %s" % (ha, hb, nfp, j, fa, fb)})
+            # the same fingerprint followed by the same job gave two different fingerprints: some state the job depends on (or
+            # writes) is outside the fingerprint, or is not a function of the history (a counter, a timestamp).  That weakens
+            # the harness's pruning argument, it is not by itself a difference in any result: noted, run not exhaustive.
+            merged["capped"] = True
+            merged["extra"]["fingerprint_not_congruent"] = merged["extra"].get("fingerprint_not_congruent", 0) + 1
+            if len(merged["notes"]) < 8:
+                merged["notes"].append("fingerprint not congruent for job %s: histories %s and %s reach fingerprint %s, then %s / %s"
+                                       % (_JOB[j]["jk"], ha, hb, nfp, fa, fb))
     expanded = {e[2] for e in edges}
     extra["congruence_groups_checked"] = groups
     extra["states_expanded"] = len(expanded)
